@@ -596,6 +596,29 @@ class CFG:
             rf[x] = r
         self.rf = rf
         self.rpo = {x: i for i, x in enumerate(reversed(topo))}
+        # blocks from which every path ends in a diverging panic call (assert!/panic!/unwrap failure arms)
+        self.must_panic = set()
+        is_panic_call = {}
+        for i, b in enumerate(mir['blocks']):
+            t = b['term']
+            if t['k'] == 'call' and t['target'] is None:
+                d = (t['func'].get('fn') or {}).get('def', '')
+                if 'panic' in d or 'assert_failed' in d or 'unwrap_failed' in d or 'expect_failed' in d or 'slice_index' in d or 'begin_unwind' in d:
+                    is_panic_call[i] = d
+        changed = True
+        mp = set(is_panic_call)
+        while changed:
+            changed = False
+            for i in order:
+                if i in mp:
+                    continue
+                ss = self.succ[i]
+                t = mir['blocks'][i]['term']
+                if ss and all(x in mp for x in ss) and t['k'] in ('goto', 'call', 'drop', 'switch'):
+                    mp.add(i)
+                    changed = True
+        self.must_panic = mp
+        self.panic_callee = is_panic_call
         # blocks that must wait for a loop to finish: after[p] = union over loops L containing p of rf[header] \ body
         self.waits_for = [0] * n
         for h, body in self.loops.items():
@@ -833,6 +856,8 @@ class Exec:
         """Read the pointee of a ('ref', target, window)."""
         if ref[0] == 'ite':
             return mk_ite(ref[1], self.load(st, ref[2]), self.load(st, ref[3]))
+        if ref[0] == 'opaque':
+            raise Uncertified("use of %s" % ref[1])
         if ref[0] != 'ref':
             if ty_of(ref) == 'str':
                 return ref  # &str and str are the same abstract object
@@ -1238,6 +1263,10 @@ class Exec:
                 continue
             first = False
             guard, st = self.merger.merge(alts)
+            if bb in cfg.must_panic:
+                line = blocks[bb]['term'].get('line')
+                self.obligations.append(Obligation(key, line, 'explicit panic (assert!/panic!/unwrap)', FALSE, st.gstack + guard, None, tuple(self.fn_stack)))
+                continue
             self.fuel -= 1
             if self.fuel < 0:
                 raise Uncertified("analysis budget exceeded (symbolic loop or path explosion) in %s" % key, self.pdb.where(key))
